@@ -78,6 +78,42 @@ theorem kill_point_safe (d : Dir) (mode : BackupMode) (name old new : List UInt8
     (∀ k v, k ≠ name → d.get k = some v → (runSteps d (l.take i)).get k = some v) :=
   ⟨(kill_safe d mode name old new l hold hl i).1, (kill_safe d mode name old new l hold hl i).2.1⟩
 
+/-- Exact delta of the set of backups under `numbered`: after the overwrite a backup `<name>.~m~` exists iff
+`m = N` or it existed before — exactly one backup appears, none disappears, and every one that existed keeps
+its content. -/
+theorem overwrite_adds_exactly_one_backup (d : Dir) (name old new : List UInt8) (N : Nat)
+    (hold : d.get name = some old) (hN : nextBackupNum d.names name = some N) (m : Nat) (v : List UInt8) :
+    (copyOnce d (.numbered, name, new)).get (backupName name m) = some v ↔
+      (m = N ∧ v = old) ∨ (m ≠ N ∧ d.get (backupName name m) = some v) := by
+  obtain ⟨_, h2, _, _, h5⟩ := copyOnce_numbered_keeps_old d name old new N hold hN
+  by_cases hm : m = N
+  · subst hm; rw [h2]; constructor
+    · intro h; exact Or.inl ⟨rfl, (Option.some.inj h).symm⟩
+    · rintro (⟨_, rfl⟩ | ⟨h, _⟩)
+      · rfl
+      · exact absurd rfl h
+  · rw [h5 _ (backupName_ne name m) (fun h => hm (backupName_inj name m N h))]
+    constructor
+    · intro h; exact Or.inr ⟨hm, h⟩
+    · rintro (⟨h, _⟩ | ⟨_, h⟩)
+      · exact absurd h hm
+      · exact h
+
+/-- Mode `none` never takes a backup: only the target changes, whatever backups exist. -/
+theorem none_mode_touches_only_target (d : Dir) (name new : List UInt8) (k : Name) :
+    (copyOnce d (.none, name, new)).get k = if k = name then some new else d.get k :=
+  copyOnce_nobackup_get new (by simp [needsBackup]) k
+
+/-- When the next number would not fit in 64 bits (`checked_add` fails) and a backup is due, the copy is
+refused and the directory is left exactly as it was — the old content is not overwritten without a backup. -/
+theorem overflow_refuses_and_changes_nothing (d : Dir) (mode : BackupMode) (name new : List UInt8)
+    (hb : needsBackup mode (d.get name).isSome d.names name = true) (hN : nextBackupNum d.names name = none) :
+    copyOnce d (mode, name, new) = d :=
+  copyOnce_refused new hb hN
+
+/-- Non-vacuity of the overflow case: a backup numbered 2^64-1 exists. -/
+example : nextBackupNum [[97], backupName [97] (2^64 - 1)] [97] = none := by decide
+
 /-- Non-vacuity and a non-UTF-8 name (0xFF 0xFE): three numbered overwrites keep v0, v1, v2. -/
 example :
     let nm : Name := [0xFF, 0xFE]
